@@ -245,9 +245,14 @@ class DynMod(nn.Module):
         self.lin = nn.Linear(8, 8, bias=False)
         with torch.no_grad():
             self.lin.weight.copy_(torch.randint(-1, 2, (8, 8)).float())
+        if variant % 4 == 2:
+            self.lin.weight.requires_grad_(False)      # a frozen (pre-trained) weight: receives no gradient, must stay frozen under tracking
+        self.register_buffer("off", torch.tensor([1.0, -1.0, 0.0, 2.0, 0.0, -2.0, 1.0, 0.0]))   # a float buffer that takes part when v % 3 == 1
 
     def forward(self, x):
         a = torch.relu(x)
+        if self.v % 3 == 1:
+            a = a + self.off
         b = self.lin(a) if self.v % 2 == 0 else a * 2
         m = b > 0
         c = torch.where(m, a, -a)
@@ -288,6 +293,11 @@ def trace_dynamo(rng: random.Random, variant: int, modes: Tuple[str, ...] = ("al
         same_grad = True
         if mode != "none":
             same_grad = bwd_err is None and tx.grad is not None and torch.equal(tx.grad, px.grad) and all(torch.equal(v.grad, pgrad[k]) for k, v in tm.named_parameters() if k in pgrad)
+            # a parameter the plain module gives no gradient (frozen) gets none from the tracked one either
+            same_grad = same_grad and all(v.grad is None for k, v in tm.named_parameters() if k not in pgrad)
+        # tracking leaves the trainable / frozen status of parameters and buffers as it was
+        flags = {k: v.requires_grad for k, v in list(mod.named_parameters()) + list(mod.named_buffers())}
+        same_grad = same_grad and all(v.requires_grad == flags[k] for k, v in list(tm.named_parameters()) + list(tm.named_buffers()))
         # independent capture on the traced graph itself (un-instrumented execution of the same fx graph)
         g = tm.scales_graph()
         gm = fx.GraphModule(tm, g)
@@ -299,7 +309,8 @@ def trace_dynamo(rng: random.Random, variant: int, modes: Tuple[str, ...] = ("al
                 if not isinstance(n.meta.get("example_value"), torch.Tensor) and n.meta.get("example_value") is not None:
                     feed.append(int(x.shape[0]))
                 else:
-                    feed.append(tm.lin.weight.detach().clone().requires_grad_() if "parameters" in str(n.target) else cx)
+                    feed.append(mod.lin.weight.detach().clone().requires_grad_(mod.lin.weight.requires_grad) if "parameters" in str(n.target)
+                                else mod.off.detach().clone() if "buffers" in str(n.target) else cx)
         cout = cap.run(*feed)
         cout = cout[0] if isinstance(cout, tuple) else cout
         if mode != "none":
